@@ -456,6 +456,21 @@ def r15c(P, R):
             R.check("R15-c", "json-field:%s.%s" % (ap.split("::")[-1], fld), ok, "read by the JSON->Schema converter",
                     "introspection field `%s.%s` is deserialised but never read: that part of the schema is lost on the JSON route" % (ap.split("::")[-1], fld))
     R.floor("R15-c", "introspection struct fields", n, 35)
+    # the serde model of the JSON owns (or may own) its strings: serde_json can hand out a *borrowed* `&str` only for a JSON string
+    # without any escape sequence, so a plain `&str` field makes every document that needs `\"`, `\n` or `\uXXXX` in that place
+    # undeserialisable — the JSON route then rejects a schema the SDL route accepts.  `Cow<str>` / `String` are fine.
+    for ap in sorted(adts):
+        adt = P.adt(ap)
+        if adt.kind != "Struct":
+            continue
+        for fld, ty in sorted(adt.field_types().items()):
+            t = (ty or "").replace("&mut ", "&").replace("& ", "&")
+            if "&str" in t or "&[u8]" in t:
+                R.violated("R15-c", "json-model-owned:%s.%s" % (ap.split("::")[-1], fld), "`%s.%s` of the introspection JSON model is a borrowed `%s`: serde_json cannot "
+                           "borrow a string that contains an escape sequence, so an introspection result with e.g. a quoted or multi-line text there fails to load "
+                           "while the same schema as SDL is accepted" % (ap.split("::")[-1], fld, ty), loc="%s:%d" % (adt.file, adt.line))
+    if not any(r["key"].startswith("R15-c:json-model-owned:") and r["status"] == "VIOLATED" for r in R.results):
+        R.holds("R15-c", "json-model-owned:all", "string fields of the introspection JSON model are Cow/String (escaped JSON strings deserialise)")
     # Schema -> AST (printing) reads every component of the type-system structs, except the listed ones
     t2a = sorted(p for p in P.reachable([P.fn(SEM + "type_system_to_ast::type_system_to_ast")]) if p.startswith(SEM) and not P.fns[p].derived)
     exempt = {
